@@ -55,6 +55,18 @@ def key(a):
 
 
 def run_spec(ctx, rep, spec, model, orders, real_pool=False, only=None):
+    """`spec["one_cpu"]`: the whole case runs in a process restricted to one usable processor"""
+    if spec.get("one_cpu") and hasattr(os, "sched_setaffinity"):
+        old = os.sched_getaffinity(0)
+        try:
+            os.sched_setaffinity(0, {sorted(old)[0]})
+            return _run_spec(ctx, rep, spec, model, orders, real_pool=real_pool, only=only)
+        finally:
+            os.sched_setaffinity(0, old)
+    return _run_spec(ctx, rep, spec, model, orders, real_pool=real_pool, only=only)
+
+
+def _run_spec(ctx, rep, spec, model, orders, real_pool=False, only=None):
     from amr_kitchen import PlotfileCooker
     path = ctx.newdir("c15_")
     truth = plotgen.materialize(spec, path)
@@ -276,6 +288,12 @@ def run(ctx, rep, model=True):
         run_spec(ctx, rep, spec, model, orders_for(ctx))
         if len(rep.violations) >= 10:
             return
+    # a process restricted to ONE usable processor (a one-core container, `taskset -c 0`): every pool call still gets a worker
+    if hasattr(os, "sched_setaffinity"):
+        rep.count("one-usable-processor")
+        spec = plotgen.random_spec(ctx.rng, ndims=3, nf=2, data="bits", B=2, layout="scatter")
+        spec["one_cpu"] = True
+        run_spec(ctx, rep, spec, False, orders_for(ctx)[:2])
     # real process pools (completion order decided by the OS)
     for i in range(1 if ctx.quick else 4):
         spec = plotgen.random_spec(ctx.rng, ndims=3, nf=2, data="bits", B=2, layout="scatter")
